@@ -1,7 +1,632 @@
-//! C17 — not built yet.
-use vp_common::Cli;
+//! C17 — shutdown drains in-flight connections and serves no new ones.
+//!
+//! Schedules over real loopback TCP, one `Listener` (recording adapters, discovery takes 1.5 s,
+//! connection timeout 3 s) per schedule: 1–30 connections are in flight at the stages {just
+//! accepted, mid-login (stalled after Login Start), waiting on the slow discovery, about to be
+//! transferred}; the stop token is cancelled from another OS thread at a random instant or in the
+//! middle of a burst of connects; further connects are issued 0 … 400 ms (and 1 s) after
+//! `cancel()` returned.
+//!
+//! Oracle clauses:
+//!  (a) a connection whose `connect()` STARTED ≥ 50 ms after `cancel()` returned receives no byte;
+//!      closer races are recorded but not judged (which of two simultaneous events the server saw
+//!      first is not observable from outside);
+//!  (b) a cooperating client that was provably in flight (it had received a byte from the server
+//!      before `cancel()` was called) still receives its Transfer (a status client that had its
+//!      Status Response still receives its Pong);
+//!  (c) `Listener::listen` does not return ≥ 50 ms before such a client got its Transfer, nor while a
+//!      discovery call it had started was still ≥ 50 ms from completing, nor before a later adapter
+//!      call (adapter log, server side);
+//!  (d) `listen` returns within connection timeout + 5 s of the cancel, stalled clients or not.
+//! Scheduler lateness beyond half the slack of a clause voids that verdict (inconclusive).
+
+use crate::c16::LateLog;
+use crate::tcp::TcpEnd;
+use crate::util::*;
+use serde::{Deserialize, Serialize};
+use serde_json::{Value, json};
+use std::net::SocketAddr;
+use std::sync::Arc;
+use std::time::{Duration, Instant};
+use tokio::task::JoinHandle;
+use vp_common::refcodec::Pkt;
+use vp_common::{Cli, Report, Rng, Tier};
+use vp_sim::client::{Client, Transport};
+use vp_sim::scripts::{self, Ident};
+
+const GRACE: Duration = Duration::from_millis(50);
+const RETURN_SLACK: Duration = Duration::from_secs(5);
+
+#[derive(Clone, Copy, Debug, Serialize, Deserialize, PartialEq)]
+enum Stage {
+    /// connected, nothing sent, held open (ends at the connection timeout)
+    JustAccepted,
+    /// Handshake + Login Start, then silent (ends at the connection timeout)
+    MidLogin,
+    /// cooperating login; the stop signal finds it waiting on the discovery
+    SlowDiscovery,
+    /// cooperating login started so that its discovery completes around the stop signal
+    AboutToTransfer,
+    /// a status exchange (bursts only)
+    Status,
+}
+
+impl Stage {
+    fn label(self) -> &'static str {
+        match self {
+            Stage::JustAccepted => "just-accepted",
+            Stage::MidLogin => "mid-login",
+            Stage::SlowDiscovery => "slow-discovery",
+            Stage::AboutToTransfer => "about-to-transfer",
+            Stage::Status => "status",
+        }
+    }
+    fn cooperating_login(self) -> bool {
+        matches!(self, Stage::SlowDiscovery | Stage::AboutToTransfer)
+    }
+}
+
+#[derive(Clone, Debug, Serialize, Deserialize)]
+struct Conn {
+    stage: Stage,
+    /// connect() is issued this long after the schedule's t0
+    start_ms: u64,
+}
+
+#[derive(Clone, Debug, Serialize, Deserialize)]
+struct Schedule {
+    id: usize,
+    /// "uniform" or "burst"
+    mode: String,
+    /// cancel() is called (from another OS thread) this long after t0
+    cancel_ms: u64,
+    conns: Vec<Conn>,
+    /// status connects issued this long after cancel() returned
+    post_ms: Vec<u64>,
+    discovery_ms: u64,
+    timeout_ms: u64,
+    start_delay_ms: u64,
+}
+
+impl Schedule {
+    fn class(&self) -> String {
+        let mut stages: Vec<&str> = self.conns.iter().map(|c| c.stage.label()).collect();
+        stages.sort();
+        stages.dedup();
+        let n = self.conns.len();
+        let bucket = if n <= 1 { "1" } else if n <= 5 { "2-5" } else if n <= 15 { "6-15" } else if n <= 30 { "16-30" } else { "31+" };
+        format!("{}/{}/n-{bucket}/cancel-{}", self.mode, stages.join("+"), self.cancel_ms / 100)
+    }
+}
+
+#[derive(Clone, Debug)]
+struct ConnResult {
+    stage: Stage,
+    /// Some(offset) for the connects issued after the cancel
+    post_ms: Option<u64>,
+    connect_started: Instant,
+    connect_error: Option<String>,
+    first_byte: Option<Instant>,
+    bytes: usize,
+    status_response: Option<Instant>,
+    pong: Option<Instant>,
+    transfer: Option<Instant>,
+    closed: Option<Instant>,
+    clientbound: Vec<&'static str>,
+}
+
+impl ConnResult {
+    fn to_json(&self, called: Instant, returned: Instant) -> Value {
+        let rel = |t: Instant| {
+            let v = if t >= called { t.duration_since(called).as_secs_f64() } else { -(called.duration_since(t).as_secs_f64()) };
+            (v * 1e4).round() / 10.0
+        };
+        let relo = |t: Option<Instant>| t.map(rel);
+        json!({
+            "stage": self.stage.label(),
+            "issued_ms_after_cancel_returned_planned": self.post_ms,
+            "connect_started_ms_rel_cancel_called": rel(self.connect_started),
+            "connect_started_ms_after_cancel_returned": if self.connect_started >= returned { Some((self.connect_started.duration_since(returned).as_secs_f64() * 1e4).round() / 10.0) } else { None },
+            "connect_error": self.connect_error,
+            "first_byte_ms_rel_cancel_called": relo(self.first_byte),
+            "bytes_received": self.bytes,
+            "transfer_ms_rel_cancel_called": relo(self.transfer),
+            "status_response_ms_rel_cancel_called": relo(self.status_response),
+            "pong_ms_rel_cancel_called": relo(self.pong),
+            "closed_ms_rel_cancel_called": relo(self.closed),
+            "clientbound": self.clientbound,
+        })
+    }
+}
+
+async fn run_conn(addr: SocketAddr, stage: Stage, post_ms: Option<u64>, id: u64, patience: Duration) -> ConnResult {
+    let connect_started = Instant::now();
+    let mut r = ConnResult { stage, post_ms, connect_started, connect_error: None, first_byte: None, bytes: 0, status_response: None, pong: None, transfer: None, closed: None, clientbound: vec![] };
+    let end = match tokio::time::timeout(Duration::from_secs(2), TcpEnd::connect(addr, None)).await {
+        Ok(Ok(e)) => e,
+        Ok(Err(e)) => {
+            r.connect_error = Some(e.to_string());
+            return r;
+        }
+        Err(_) => {
+            r.connect_error = Some("connect() did not complete within 2 s".into());
+            return r;
+        }
+    };
+    match stage {
+        Stage::JustAccepted => {
+            end.wait_closed(patience).await;
+        }
+        Stage::MidLogin => {
+            end.send(&scripts::handshake(2, "drain.example.org", 25565, 770).frame());
+            end.send(&Pkt::LoginStart { name: format!("Mid{id}"), uuid: 0x2000 + id as u128 }.frame());
+            end.wait_closed(patience).await;
+        }
+        Stage::SlowDiscovery | Stage::AboutToTransfer => {
+            let claimed = Ident { name: format!("Coop{id}"), uuid: 0x3000 + id as u128 };
+            let c0 = Instant::now();
+            let plan = scripts::plan(scripts::login_script(2, "drain.example.org", 25565, &claimed, "en_us"), false, [(id % 250) as u8 + 1; 16], patience);
+            let log = Client::new(&end, plan).run().await;
+            r.transfer = log.first("Transfer").map(|x| c0 + Duration::from_nanos(x.t_ns));
+            r.clientbound = log.names();
+        }
+        Stage::Status => {
+            let c0 = Instant::now();
+            let plan = scripts::plan(scripts::status_script("drain.example.org", 25565, id), true, [1u8; 16], patience);
+            let log = Client::new(&end, plan).run().await;
+            r.status_response = log.first("StatusResponse").map(|x| c0 + Duration::from_nanos(x.t_ns));
+            r.pong = log.first("StatusPong").map(|x| c0 + Duration::from_nanos(x.t_ns));
+            r.clientbound = log.names();
+        }
+    }
+    r.first_byte = end.first_byte_at();
+    r.bytes = end.bytes_received();
+    r.closed = end.closed_at();
+    end.kill();
+    r
+}
+
+struct Outcome {
+    schedule: Schedule,
+    inconclusive: Option<String>,
+    /// lower bound of the instant the adapter log's clock started
+    rec_base: Instant,
+    called: Option<Instant>,
+    cancel_returned: Option<Instant>,
+    listen_returned: Option<Instant>,
+    gave_up_waiting_at: Option<Instant>,
+    conns: Vec<ConnResult>,
+    calls: Vec<(&'static str, u64, Option<u64>)>,
+}
+
+static START: tokio::sync::Mutex<()> = tokio::sync::Mutex::const_new(());
+
+async fn run_schedule(s: Schedule) -> Outcome {
+    tokio::time::sleep(Duration::from_millis(s.start_delay_ms)).await;
+    let timeout = Duration::from_millis(s.timeout_ms);
+    let spec = DirectSpec { timeout, discovery_latency: Duration::from_millis(s.discovery_ms), ..Default::default() };
+    let (direct, rec_base) = {
+        let _g = START.lock().await;
+        let base = Instant::now();
+        (start_direct(spec).await, base)
+    };
+    let addr = direct.addr;
+    let mut out = Outcome { schedule: s.clone(), inconclusive: None, rec_base, called: None, cancel_returned: None, listen_returned: None, gave_up_waiting_at: None, conns: vec![], calls: vec![] };
+
+    // control: the listener serves before anything else happens
+    let control = run_conn(addr, Stage::Status, None, 0, Duration::from_secs(3)).await;
+    if control.pong.is_none() || direct.returned_at().is_some() {
+        out.inconclusive = Some("the listener did not serve a control status exchange before the schedule began".into());
+        direct.stop.cancel();
+        return out;
+    }
+
+    let t0 = Instant::now() + Duration::from_millis(20);
+    let cancel_at = t0 + Duration::from_millis(s.cancel_ms);
+    // everything gives up well after the latest instant listen may legitimately return
+    let patience_until = cancel_at + timeout + RETURN_SLACK + Duration::from_secs(1);
+
+    // the stop signal comes from another OS thread
+    let (tx, rx) = tokio::sync::oneshot::channel::<(Instant, Instant)>();
+    {
+        let stop = direct.stop.clone();
+        std::thread::spawn(move || {
+            let now = Instant::now();
+            if cancel_at > now {
+                std::thread::sleep(cancel_at - now);
+            }
+            let called = Instant::now();
+            stop.cancel();
+            let returned = Instant::now();
+            let _ = tx.send((called, returned));
+        });
+    }
+
+    let mut tasks: Vec<JoinHandle<ConnResult>> = vec![];
+    for (i, c) in s.conns.iter().enumerate() {
+        let (stage, at) = (c.stage, t0 + Duration::from_millis(c.start_ms));
+        tasks.push(tokio::spawn(async move {
+            tokio::time::sleep_until(at.into()).await;
+            run_conn(addr, stage, None, 1 + i as u64, patience_until.saturating_duration_since(Instant::now())).await
+        }));
+    }
+    let (called, cancel_returned) = match rx.await {
+        Ok(v) => v,
+        Err(_) => {
+            out.inconclusive = Some("the cancelling thread vanished".into());
+            direct.stop.cancel();
+            return out;
+        }
+    };
+    out.called = Some(called);
+    out.cancel_returned = Some(cancel_returned);
+    for (j, off) in s.post_ms.iter().enumerate() {
+        let (off_ms, at) = (*off, cancel_returned + Duration::from_millis(*off));
+        tasks.push(tokio::spawn(async move {
+            tokio::time::sleep_until(at.into()).await;
+            run_conn(addr, Stage::Status, Some(off_ms), 1000 + j as u64, Duration::from_millis(1200)).await
+        }));
+    }
+
+    // when does Listener::listen return?
+    let limit = called + timeout + RETURN_SLACK;
+    loop {
+        if let Some(t) = direct.returned_at() {
+            out.listen_returned = Some(t);
+            break;
+        }
+        if Instant::now() >= limit + Duration::from_millis(100) {
+            out.gave_up_waiting_at = Some(Instant::now());
+            break;
+        }
+        tokio::time::sleep(Duration::from_millis(5)).await;
+    }
+    for t in tasks {
+        match t.await {
+            Ok(r) => out.conns.push(r),
+            Err(e) => out.inconclusive = Some(format!("a connection task failed: {e}")),
+        }
+    }
+    out.calls = direct.rec.calls().iter().map(|c| (c.call.name(), c.t_ns, c.done_ns)).collect();
+    if out.listen_returned.is_none() {
+        out.listen_returned = direct.returned_at();
+    }
+    if matches!(out.listen_returned, Some(r) if r < called) {
+        out.inconclusive = Some("Listener::listen had returned before cancel() was called (listener failed to start or died)".into());
+    }
+    out
+}
+
+// ---------------------------------------------------------------------------------------------
+// generation
+
+fn generate_one(rng: &mut Rng, id: usize, spread_ms: u64) -> Schedule {
+    let discovery_ms = 1500u64;
+    let timeout_ms = 3000u64;
+    let mut conns = vec![];
+    let profile = id % 4;
+    let cancel_ms = 1_700 + rng.below(900);
+    let add = |rng: &mut Rng, stage: Stage, conns: &mut Vec<Conn>| {
+        let start_ms = match stage {
+            Stage::JustAccepted | Stage::MidLogin => {
+                // some right before the signal, some long before
+                if rng.chance(1, 3) { cancel_ms - 60 - rng.below(60) } else { rng.below(cancel_ms - 60) }
+            }
+            Stage::SlowDiscovery => cancel_ms - 60 - rng.below(1_340),
+            // login takes a few ms, the discovery 1.5 s: completion falls within ±40 ms of the signal
+            Stage::AboutToTransfer => (cancel_ms as i64 - discovery_ms as i64 - 8 + rng.range(-40, 40)) as u64,
+            Stage::Status => cancel_ms - 60 - rng.below(200),
+        };
+        conns.push(Conn { stage, start_ms });
+    };
+    let sizes = [1usize, 2, 3, 5, 8, 13, 20, 30];
+    let mut mode = "uniform";
+    match profile {
+        0 => {
+            // only cooperating clients
+            let n = *rng.pick(&sizes);
+            for _ in 0..n {
+                let st = if rng.bool() { Stage::SlowDiscovery } else { Stage::AboutToTransfer };
+                add(rng, st, &mut conns);
+            }
+        }
+        1 => {
+            // a mix of all four stages
+            let n = *rng.pick(&sizes);
+            for _ in 0..n {
+                let st = *rng.pick(&[Stage::JustAccepted, Stage::MidLogin, Stage::SlowDiscovery, Stage::AboutToTransfer]);
+                add(rng, st, &mut conns);
+            }
+        }
+        2 => {
+            // adversarial: the signal lands inside a burst of connects that keeps streaming
+            mode = "burst";
+            for _ in 0..rng.range(1, 6) {
+                let st = *rng.pick(&[Stage::SlowDiscovery, Stage::AboutToTransfer, Stage::MidLogin]);
+                add(rng, st, &mut conns);
+            }
+            let mut t = cancel_ms - 60 - rng.below(60);
+            let end = cancel_ms + 140 + rng.below(60);
+            while t < end {
+                let st = if rng.chance(3, 5) { Stage::Status } else { Stage::SlowDiscovery };
+                conns.push(Conn { stage: st, start_ms: t });
+                t += rng.below(5) + (conns.len() as u64 % 2);
+            }
+        }
+        _ => {
+            // a single connection, each stage in turn
+            let st = [Stage::JustAccepted, Stage::MidLogin, Stage::SlowDiscovery, Stage::AboutToTransfer][(id / 4) % 4];
+            add(rng, st, &mut conns);
+        }
+    }
+    // in two of three non-burst schedules the FIRST connection after the signal already comes
+    // ≥ 50 ms late, so that "one more connection is served, whenever it comes" cannot hide
+    // behind the connects that race the signal and are not judged
+    let mut post_ms: Vec<u64> = match (mode, id % 3) {
+        ("uniform", 1) => vec![60, 100, 150, 400],
+        ("uniform", 2) => vec![200, 400],
+        _ => vec![0, 1, 10, 60, 100, 150, 400],
+    };
+    if conns.iter().any(|c| matches!(c.stage, Stage::JustAccepted | Stage::MidLogin)) {
+        // while the listener is still draining stalled connections
+        post_ms.push(1_000);
+    }
+    Schedule { id, mode: mode.into(), cancel_ms, conns, post_ms, discovery_ms, timeout_ms, start_delay_ms: rng.below(spread_ms.max(1)) }
+}
+
+// ---------------------------------------------------------------------------------------------
+// judging
+
+fn ms_between(a: Instant, b: Instant) -> f64 {
+    let v = if b >= a { b.duration_since(a).as_secs_f64() } else { -(a.duration_since(b).as_secs_f64()) };
+    (v * 1e4).round() / 10.0
+}
+
+fn observed(o: &Outcome) -> Value {
+    let called = o.called.unwrap_or(o.rec_base);
+    let cancel_returned = o.cancel_returned.unwrap_or(called);
+    json!({
+        "cancel_call_took_us": o.cancel_returned.map(|r| r.duration_since(called).as_micros() as u64),
+        "listen_returned_ms_after_cancel_called": o.listen_returned.map(|r| ms_between(called, r)),
+        "listen_not_returned_when_given_up_ms_after_cancel": o.gave_up_waiting_at.map(|g| ms_between(called, g)),
+        "connections": o.conns.iter().map(|c| c.to_json(called, cancel_returned)).collect::<Vec<_>>(),
+        "adapter_calls_ms_rel_cancel_called(lower bounds)": o.calls.iter().filter(|c| c.0 == "discover" || c.0 == "select").map(|(n, t, d)| json!({
+            "call": n,
+            "began": ms_between(called, o.rec_base + Duration::from_nanos(*t)),
+            "done": d.map(|d| ms_between(called, o.rec_base + Duration::from_nanos(d))),
+        })).collect::<Vec<_>>(),
+    })
+}
+
+#[derive(Default)]
+struct Stats {
+    return_ms: Vec<f64>,
+    /// how long after cancel() returned the served racing connects had started
+    served_racing_ms: Vec<f64>,
+}
+
+fn judge(report: &mut Report, late: &LateLog, o: &Outcome, stats: &mut Stats, sample: bool) {
+    let s = &o.schedule;
+    let tag = format!("schedule {} ({})", s.id, s.class());
+    if let Some(why) = &o.inconclusive {
+        report.inconclusive(&format!("{tag}: {why}"));
+        return;
+    }
+    let (Some(called), Some(cancel_returned)) = (o.called, o.cancel_returned) else {
+        report.inconclusive(&format!("{tag}: the stop signal was never given"));
+        return;
+    };
+    report.eval(Some(&s.class()));
+    report.count("schedules", 1);
+    if sample {
+        report.sample(json!({"schedule": s, "observed": observed(o)}));
+    }
+    let witness = |expected: &str| json!({"schedule": s, "observed": observed(o), "expected": expected, "replay": "vp-net --prop C17 --replay <this file>"});
+    let timeout = Duration::from_millis(s.timeout_ms);
+    let discovery = Duration::from_millis(s.discovery_ms);
+    let stalled_inflight = s.conns.iter().any(|c| matches!(c.stage, Stage::JustAccepted | Stage::MidLogin));
+
+    // (d) listen returns in bounded time
+    match o.listen_returned {
+        Some(r) if r <= called + timeout + RETURN_SLACK => {
+            report.count("listen() returns observed within timeout + 5 s of the cancel", 1);
+            stats.return_ms.push(ms_between(called, r));
+        }
+        other => {
+            let worst = late.worst_between(called, called + timeout + RETURN_SLACK);
+            if worst > RETURN_SLACK / 2 {
+                report.inconclusive(&format!("{tag}: harness was starved ({worst:?} late), return-time verdict void"));
+            } else {
+                report.violation(
+                    &format!("d-listen-not-returned-within-timeout+5s/{}", if stalled_inflight { "stalled-clients-in-flight" } else { "no-stalled-client" }),
+                    &format!(
+                        "Listener::listen had not returned {:.1} s after cancel() (connection timeout {} s){}",
+                        (timeout + RETURN_SLACK).as_secs_f64(),
+                        timeout.as_secs(),
+                        other.map(|r| format!("; it returned after {:.1} s", r.duration_since(called).as_secs_f64())).unwrap_or_default()
+                    ),
+                    witness("listen() returns within connection timeout + 5 s of the cancel"),
+                );
+            }
+        }
+    }
+
+    for c in &o.conns {
+        // (a) no service for connections that arrive after the signal
+        if c.connect_started >= cancel_returned {
+            let after = c.connect_started.duration_since(cancel_returned);
+            let served = c.bytes > 0;
+            if after >= GRACE {
+                report.count("connects started ≥ 50 ms after cancel() returned (judged)", 1);
+                if !served {
+                    report.count(if c.connect_error.is_some() { "post-cancel connects refused/reset at connect()" } else { "post-cancel connects established by the kernel but never answered" }, 1);
+                } else {
+                    let worst = late.worst_between(called, c.connect_started + Duration::from_millis(100));
+                    if worst > GRACE / 2 {
+                        report.inconclusive(&format!("{tag}: harness was starved ({worst:?} late) around the cancel, served-after-shutdown verdict void"));
+                    } else {
+                        report.violation(
+                            &format!("a-served-after-shutdown/{}", if o.listen_returned.map(|r| c.connect_started >= r).unwrap_or(false) { "after-listen-returned" } else { "while-draining" }),
+                            &format!("a connection whose connect() started {:.0} ms after cancel() returned was served ({} bytes: {:?})", after.as_secs_f64() * 1000.0, c.bytes, c.clientbound),
+                            witness("no byte is sent to a connection whose connect() started ≥ 50 ms after cancel() returned"),
+                        );
+                    }
+                }
+            } else {
+                report.count("connects racing the signal (< 50 ms after cancel() returned, not judged)", 1);
+                if served {
+                    report.count("racing connects that were served (not judged)", 1);
+                    stats.served_racing_ms.push((after.as_secs_f64() * 1e4).round() / 10.0);
+                }
+            }
+            continue;
+        }
+        // (b) provably in flight: the server had already sent it something when cancel() was called
+        let in_flight = c.first_byte.map(|t| t < called).unwrap_or(false);
+        if !in_flight {
+            if c.connect_started + GRACE > called {
+                report.count("connects racing the signal (started < 50 ms before cancel(), not judged)", 1);
+            } else if matches!(c.stage, Stage::JustAccepted) {
+                report.count("silent in-flight connections (drain bounded by the timeout)", 1);
+            }
+            continue;
+        }
+        let worst = late.worst_between(c.connect_started, c.connect_started + timeout + Duration::from_millis(500));
+        let starved = worst > Duration::from_millis(700);
+        if c.stage.cooperating_login() {
+            report.count("cooperating clients in flight at the cancel", 1);
+            match c.transfer {
+                Some(t) => {
+                    report.count("in-flight cooperating clients that still received their Transfer", 1);
+                    if t >= called {
+                        report.count("Transfers delivered after cancel() was called", 1);
+                    }
+                    // (c) client side
+                    if let Some(r) = o.listen_returned
+                        && r + GRACE <= t
+                    {
+                        report.violation(
+                            "c-listen-returned-before-inflight-finished/client-transfer",
+                            &format!("Listener::listen returned {:.0} ms before an in-flight client received its Transfer", t.duration_since(r).as_secs_f64() * 1000.0),
+                            witness("listen() returns only after every in-flight connection has finished"),
+                        );
+                    }
+                }
+                None if starved => report.inconclusive(&format!("{tag}: harness was starved ({worst:?} late), lost-transfer verdict void")),
+                None => report.violation(
+                    &format!("b-inflight-client-lost-transfer/{}", c.stage.label()),
+                    &format!("a cooperating client that was in flight when shutdown was requested (stage {}) never received its Transfer; it saw {:?}", c.stage.label(), c.clientbound),
+                    witness("every cooperating client in flight at the cancel still receives its Transfer"),
+                ),
+            }
+        } else if c.stage == Stage::Status && c.status_response.map(|t| t < called).unwrap_or(false) {
+            report.count("status exchanges in flight at the cancel", 1);
+            if c.pong.is_none() && !starved {
+                report.violation(
+                    "b-inflight-status-lost-pong",
+                    "a status client that had its Status Response before shutdown was requested never received its Pong",
+                    witness("a status exchange in flight at the cancel still completes"),
+                );
+            }
+        } else if c.stage == Stage::MidLogin {
+            report.count("stalled mid-login connections in flight at the cancel", 1);
+        }
+    }
+
+    // (c) server side: adapter log against the instant listen returned. `rec_base` was taken
+    // before the log's clock started, so rec_base + t is a LOWER bound of the true instant.
+    if let Some(r) = o.listen_returned {
+        for (name, t_ns, done_ns) in &o.calls {
+            let began = o.rec_base + Duration::from_nanos(*t_ns);
+            if began >= r + GRACE {
+                report.violation(
+                    "c-adapter-call-after-listen-returned",
+                    &format!("a {name} adapter call began ≥ {:.0} ms after Listener::listen had returned", began.duration_since(r).as_secs_f64() * 1000.0),
+                    witness("no connection is still being processed once listen() has returned"),
+                );
+            }
+            if *name == "discover" {
+                report.count("discovery calls in the adapter log", 1);
+                let earliest_completion = began + discovery;
+                let completed_in_time = done_ns.map(|d| o.rec_base + Duration::from_nanos(d) < r + GRACE).unwrap_or(false);
+                if earliest_completion >= r + GRACE && !completed_in_time {
+                    report.violation(
+                        "c-listen-returned-before-backend-completed",
+                        &format!(
+                            "Listener::listen returned ≥ {:.0} ms before the {} ms discovery of a connection it had accepted could complete (call {})",
+                            earliest_completion.duration_since(r).as_secs_f64() * 1000.0,
+                            s.discovery_ms,
+                            if done_ns.is_some() { "completed later" } else { "was dropped unfinished" }
+                        ),
+                        witness("listen() returns only after the slow backend call of every in-flight connection has completed"),
+                    );
+                } else if done_ns.is_some() {
+                    report.count("discovery calls completed before listen() returned", 1);
+                }
+            }
+        }
+    }
+}
+
+async fn run(cli: &Cli, report: &mut Report) {
+    let late = LateLog::start(Duration::from_millis(5));
+    let thorough = cli.tier == Tier::Thorough;
+    let (schedules, concurrency): (Vec<Schedule>, usize) = if let Some(path) = &cli.replay {
+        let s = std::fs::read_to_string(path).ok().and_then(|t| serde_json::from_str::<Value>(&t).ok()).and_then(|v| serde_json::from_value::<Schedule>(v["witness"]["schedule"].clone()).ok());
+        match s {
+            Some(mut s) => {
+                s.start_delay_ms = 0;
+                (vec![s], 1)
+            }
+            None => {
+                report.inconclusive_fatal("the replay file holds no C17 schedule");
+                return;
+            }
+        }
+    } else {
+        let n = cli.scaled(if thorough { 1000 } else { 40 }) as usize;
+        let mut rng = Rng::stream(cli.seed, 0xC17);
+        ((0..n).map(|id| generate_one(&mut rng, id, 600)).collect(), if thorough { 40 } else { 20 })
+    };
+    let sem = Arc::new(tokio::sync::Semaphore::new(concurrency));
+    let tasks: Vec<JoinHandle<Outcome>> = schedules
+        .into_iter()
+        .map(|s| {
+            let sem = sem.clone();
+            tokio::spawn(async move {
+                let _permit = sem.acquire_owned().await;
+                run_schedule(s).await
+            })
+        })
+        .collect();
+    let mut stats = Stats::default();
+    for (n, t) in tasks.into_iter().enumerate() {
+        match t.await {
+            Ok(o) => judge(report, &late, &o, &mut stats, n % 7 == 1 && o.schedule.conns.len() <= 8),
+            Err(e) => report.inconclusive(&format!("a schedule task failed: {e}")),
+        }
+    }
+    stats.return_ms.sort_by(|a, b| a.partial_cmp(b).unwrap_or(std::cmp::Ordering::Equal));
+    if !stats.return_ms.is_empty() {
+        let v = &stats.return_ms;
+        report.set("listen_returned_ms_after_cancel", json!({"schedules": v.len(), "min": v[0], "median": v[v.len() / 2], "max": v[v.len() - 1]}));
+    }
+    stats.served_racing_ms.sort_by(|a, b| a.partial_cmp(b).unwrap_or(std::cmp::Ordering::Equal));
+    report.set("served_racing_connects_started_ms_after_cancel_returned", json!(stats.served_racing_ms));
+    report.set("worst_scheduler_lateness_ms", json!(late.worst().as_millis() as u64));
+}
 
 pub async fn run_prop(cli: &Cli) -> i32 {
-    println!("[{}] INCONCLUSIVE: monitor not built yet", cli.prop);
-    2
+    let mut report = Report::new(
+        cli,
+        "fault_enumeration",
+        "per schedule one Listener (recording adapters, discovery 1.5 s, connection timeout 3 s) on loopback TCP; 1–30 in-flight connections at stages {just accepted, stalled after Login Start, waiting on the discovery, discovery completing within ±40 ms of the signal}, the stop token cancelled from another OS thread at a uniformly random instant or in the middle of a burst of 40–120 connects streaming in; status connects 0/1/10/60/100/150/400 (1000) ms after cancel() returned (in two of three schedules the first of them only after 60 or 200 ms); distinct = (mode, set of stages, number of connections bucket, cancel instant in 100 ms)",
+    );
+    report.set_max_samples(5);
+    report.assume("a connection is judged 'arrived after shutdown' only if its connect() started ≥ 50 ms after cancel() returned; 'in flight' only if the server had sent it a byte before cancel() was called; everything in between is recorded, not judged");
+    report.assume("served = any byte received; a connection the kernel establishes on the still-open listening socket and that is never answered counts as not served");
+    report.assume("adapter-log instants are lower bounds (the log's clock started after the base instant taken just before the listener was created)");
+    report.assume("the ctrl-c wiring of the passage binary (src/lib.rs) is not exercised: no binary target is available to this crate; the stop token is cancelled directly");
+    run(cli, &mut report).await;
+    report.finish()
 }
